@@ -11,7 +11,7 @@ Lemma step_assoc sess me r alt nd a res :
   match res with
   | Ok (nd', a', t') => (AInv sess (set_thr a' r t') /\ delta me r a nd nd' (set_thr a' r t')) /\ node_frame nd nd'
   | Blocked => True
-  | Panic site => cclosed (n_pcd nd) = true /\ site = "send on closed channel"%string
+  | Panic site => cclosed (n_pcd nd) = true /\ site = "send on closed channel"%string /\ at_pc a r FDo 5 = true
   end.
 Proof.
   intros Hr. destruct r; try discriminate Hr.
@@ -59,9 +59,10 @@ Definition GInv (cfg : list acfg) (s : state) : Prop := Forall2 AInv (map c_sess
 
 Lemma ainv_init c : AInv (c_sess c) (init_assoc c).
 Proof.
-  destruct c as [sess hb [d|]]; destruct hb; unfold AInv, fn_ok, Data, tmo_ok, code_len, init_assoc; cbn;
-  repeat (split; try reflexivity); try (left; reflexivity);
-  try (right; split; [reflexivity|split; [discriminate|lia]]).
+  destruct c as [sess hb [d|]]; destruct hb;
+    unfold AInv, fn_ok, Data, tmo_ok, hb_ok, life_ok, not_started, code_len, init_assoc, crt_t, bg_t, early_t; cbn;
+    repeat (split; try reflexivity); try (left; reflexivity); try discriminate; try (intros; congruence);
+    try (right; split; [reflexivity|split; [discriminate|lia]]); try (intros [?|?]; discriminate); auto.
 Qed.
 
 Lemma ginv_init cap cfg ev : GInv cfg (init_cap cap cfg ev).
@@ -87,12 +88,14 @@ Qed.
 Lemma ginv_step cfg s l s' : GInv cfg s -> step s l = Some s' -> GInv cfg s'.
 Proof.
   intros Hg H. unfold step in H. destruct (dead s); [discriminate|].
-  destruct l as [k|alt| |i r alt].
+  destruct l as [k|alt| | |i r alt].
   - destruct (nth_error (s_env s) k); [|discriminate]. injection H as <-. unfold GInv. cbn. apply ginv_env. exact Hg.
   - destruct (Nat.leb 3 alt); [discriminate|].
     destruct (thread_step 0 RNode alt (s_node s) assoc0 (n_thr (s_node s))) as [[[nd' a'] t']| |site];
       try discriminate; injection H as <-; exact Hg.
   - destruct (thread_step 0 RStop 0 (s_node s) assoc0 (n_stop (s_node s))) as [[[nd' a'] t']| |site];
+      try discriminate; injection H as <-; exact Hg.
+  - destruct (thread_step 0 RPeers 0 (s_node s) assoc0 (n_peers (s_node s))) as [[[nd' a'] t']| |site];
       try discriminate; injection H as <-; exact Hg.
   - destruct (negb (is_assoc_role r) || (Nat.leb 3 alt)) eqn:Eg; [discriminate|].
     apply orb_false_elim in Eg. destruct Eg as [Er _]. apply negb_false_iff in Er.
@@ -196,6 +199,7 @@ Record NS (s : state) : Prop := {
   ns_pcd : cclosed (n_pcd (s_node s)) = false;
   ns_thr : n_thr (s_node s) = thr0 TRunning FNode;
   ns_stop : n_stop (s_node s) = thr0 TNotStarted FStop;
+  ns_peers : n_peers (s_node s) = thr0 TRunning FPeers;
   ns_main : n_main (s_node s) = false;
   ns_lsock : n_lsock (s_node s) = false;
   ns_cap : ccap (n_pcd (s_node s)) = pcd_cap;
@@ -225,19 +229,20 @@ Proof. intros H. constructor; cbn; auto. Qed.
 
 Lemma ns_step cfg s l s' : GInv cfg s -> NS s -> step s l = Some s' -> NS s'.
 Proof.
-  intros Hg [Hp Hc Hd Ht Hs Hm Hl Hcap He] H. unfold step in H. unfold dead in H. rewrite Hp, Hm in H.
-  destruct l as [k|alt| |i r alt].
+  intros Hg [Hp Hc Hd Ht Hs Hpe Hm Hl Hcap He] H. unfold step in H. unfold dead in H. rewrite Hp, Hm in H.
+  destruct l as [k|alt| | |i r alt].
   - destruct (nth_error (s_env s) k) as [e|] eqn:Ek; [|discriminate]. injection H as <-.
     destruct (apply_env_node s e (no_stop_nth _ _ _ He Ek)) as (Hn & _ & _).
     constructor; cbn; rewrite ?Hn; auto. apply no_stop_remove. exact He.
   - destruct (Nat.leb 3 alt); [discriminate|].
-    destruct (s_node s) as [cx pc dn ls mp ex bu mn th sp] eqn:End. cbn in *. subst cx th sp mn.
+    destruct (s_node s) as [cx pc dn ls mp ex bu mn np nn cr en th sp pe] eqn:End. cbn in *. subst cx th sp mn.
     unfold thread_step in H. cbn in H.
     destruct alt as [|[|[|alt]]]; cbn in H; try discriminate.
     unfold ch_recv in H. destruct (cbuf pc) as [|v rest] eqn:Eb.
     + rewrite Hd in H. discriminate.
     + cbn in H. injection H as <-. constructor; cbn; auto.
   - rewrite Hs in H. cbn in H. discriminate.
+  - rewrite Hpe in H. unfold thread_step in H. cbn in H. rewrite Hl in H. cbn in H. discriminate.
   - destruct (negb (is_assoc_role r) || Nat.leb 3 alt) eqn:Eg; [discriminate|].
     apply orb_false_elim in Eg. destruct Eg as [Er _]. apply negb_false_iff in Er.
     destruct (nth_error (s_asc s) i) as [a|] eqn:Ea; [|discriminate].
@@ -245,7 +250,7 @@ Proof.
     pose proof (step_assoc se (N.of_nat i) r alt (s_node s) a _ Er Ha eq_refl) as Hstep.
     destruct (thread_step (N.of_nat i) r alt (s_node s) a (get_thr a r)) as [[[nd' a'] t']| |site];
       try discriminate; injection H as <-.
-    + destruct Hstep as [_ (F1 & F2 & F3 & F4 & F5 & F6 & F7 & F8 & F9)].
+    + destruct Hstep as [_ (F1 & F2 & F3 & F4 & F5 & F6 & F7 & F10 & F11 & F12 & F13 & F8 & F9)].
       constructor; cbn; try congruence. rewrite F1; [exact Hc|]. rewrite Hc. reflexivity.
     + destruct Hstep. congruence.
 Qed.
@@ -257,7 +262,7 @@ Proof.
   { unfold run. apply (run_inv state tid step (fun s => GInv cfg s /\ NS s)).
     - intros s l s' [Hg Hn] Hs. split; [eapply ginv_step; eauto | eapply ns_step; eauto].
     - split; [apply ginv_init | apply ns_init; exact Hns]. }
-  destruct H as [_ [Hp _ _ _ _ _ _ _ _]]. exact Hp.
+  destruct H as [_ [Hp _ _ _ _ _ _ _ _ _]]. exact Hp.
 Qed.
 
 (* with or without Stop: the only panic the system can ever raise comes from a send on the closed pConnDone
@@ -274,7 +279,7 @@ Lemma idle_blocked c me r alt nd :
   thread_step me r alt nd (init_assoc c) (get_thr (init_assoc c) r) = Blocked.
 Proof.
   destruct c as [sess hb [d|]]; cbn; [discriminate|]. intros _ Hc Hr.
-  destruct nd as [cx pc dn ls mp ex bu mn th sp]. cbn in Hc. subst cx.
+  destruct nd as [cx pc dn ls mp ex bu mn np nn cr en th sp pe]. cbn in Hc. subst cx.
   destruct r; try discriminate Hr; destruct hb; destruct alt as [|[|[|[|alt]]]]; reflexivity.
 Qed.
 
@@ -299,9 +304,9 @@ Proof.
   assert (H : P (run (init cfg ev) sch)).
   { unfold run. apply (run_inv state tid step P).
     - intros s l s' [[Hg Hn] [Hj Hun]] Hs. split; [split; [eapply ginv_step; eauto | eapply ns_step; eauto]|].
-      pose proof Hn as [Hp Hcx _ _ Hst Hm _ _ _].
+      pose proof Hn as [Hp Hcx _ _ Hst Hpe Hm Hl _ _].
       unfold step in Hs. unfold dead in Hs. rewrite Hp, Hm in Hs.
-      destruct l as [k|alt| |i r alt].
+      destruct l as [k|alt| | |i r alt].
       + destruct (nth_error (s_env s) k) as [e|] eqn:Ek; [|discriminate]. injection Hs as <-. cbn. split.
         * rewrite apply_env_other; [exact Hj|]. apply Hun. eapply nth_error_In; eauto.
         * intros e' He'. apply Hun. eapply in_remove_nth; eauto.
@@ -309,6 +314,8 @@ Proof.
         destruct (thread_step 0 RNode alt (s_node s) assoc0 (n_thr (s_node s))) as [[[nd' a'] t']| |site];
           try discriminate; injection Hs as <-; cbn; auto.
       + destruct (thread_step 0 RStop 0 (s_node s) assoc0 (n_stop (s_node s))) as [[[nd' a'] t']| |site];
+          try discriminate; injection Hs as <-; cbn; auto.
+      + destruct (thread_step 0 RPeers 0 (s_node s) assoc0 (n_peers (s_node s))) as [[[nd' a'] t']| |site];
           try discriminate; injection Hs as <-; cbn; auto.
       + destruct (negb (is_assoc_role r) || Nat.leb 3 alt) eqn:Eg; [discriminate|].
         apply orb_false_elim in Eg. destruct Eg as [Er _]. apply negb_false_iff in Er.
@@ -323,105 +330,3 @@ Proof.
   destruct H as [_ [H _]]. exact H.
 Qed.
 
-(* ================================================================== with Stop: the only panic there is *)
-(* the node closes pConnDone and done once each *)
-Definition NInv (nd : node) : Prop :=
-  t_fn (n_thr nd) = FNode /\ t_fn (n_stop nd) = FStop
-  /\ (cclosed (n_pcd nd) = true -> 6 <= t_pc (n_thr nd))
-  /\ (cclosed (n_done nd) = true -> 8 <= t_pc (n_thr nd)).
-
-Lemma ninv_node alt nd res :
-  NInv nd -> thread_step 0 RNode alt nd assoc0 (n_thr nd) = res ->
-  match res with
-  | Ok (nd', _, t') => NInv (nset_thr nd' t')
-  | Blocked => True
-  | Panic _ => False
-  end.
-Proof.
-  intros (Hf & Hs & Hp & Hd) H.
-  destruct nd as [cx pc dn ls mp ex bu mn th sp]. cbn in *.
-  destruct th as [st fn p rt it]. cbn in *. subst fn.
-  unfold thread_step in H. cbn in H.
-  destruct res as [[[nd' a'] t']| |site]; [ | exact I | ];
-    (destruct st; try discriminate H);
-    do 9 (try destruct p as [|p]); cbn in H; try discriminate H;
-    unfold ch_close, ch_recv in H; inv_ok;
-    unfold NInv; cbn; repeat split; intros; try lia; try congruence;
-    try (specialize (Hp eq_refl); lia); try (specialize (Hd eq_refl); lia);
-    try (match goal with E : cclosed _ = true |- _ => first [specialize (Hp E) | specialize (Hd E)]; lia end).
-Qed.
-
-Lemma ninv_stop nd res :
-  NInv nd -> thread_step 0 RStop 0 nd assoc0 (n_stop nd) = res ->
-  match res with
-  | Ok (nd', _, t') => NInv (nset_stop nd' t')
-  | Blocked => True
-  | Panic _ => False
-  end.
-Proof.
-  intros (Hf & Hs & Hp & Hd) H.
-  destruct nd as [cx pc dn ls mp ex bu mn th sp]. cbn in *.
-  destruct sp as [st fn p rt it]. cbn in *. subst fn.
-  unfold thread_step in H. cbn in H.
-  destruct res as [[[nd' a'] t']| |site]; [ | exact I | ];
-    (destruct st; try discriminate H);
-    do 5 (try destruct p as [|p]); cbn in H; try discriminate H;
-    unfold ch_cancel, ch_recv in H; inv_ok;
-    unfold NInv; cbn; repeat split; intros; auto.
-Qed.
-
-Lemma ninv_frame nd nd' : NInv nd -> node_frame nd nd' -> NInv nd'.
-Proof.
-  intros (Hf & Hs & Hp & Hd) (F1 & F2 & F3 & F4 & F5 & F6 & F7 & F8 & F9).
-  unfold NInv. rewrite F2, F3, F4, F8. auto.
-Qed.
-
-Lemma ninv_env s e : NInv (s_node s) -> NInv (s_node (apply_env s e)).
-Proof.
-  intros H. destruct e as [i d|i|i| |]; cbn; try (destruct (nth_error (s_asc s) i); exact H).
-  - destruct (s_node s). destruct H as (Hf & Hs & Hp & Hd). unfold NInv. cbn in *. auto.
-  - destruct (s_node s). destruct H as (Hf & Hs & Hp & Hd). unfold NInv. cbn in *. auto.
-Qed.
-
-Definition send_closed : string := "send on closed channel".
-Definition PInv (cfg : list acfg) (s : state) : Prop :=
-  GInv cfg s /\ NInv (s_node s) /\ (forall site, s_panic s = Some site -> site = send_closed).
-
-Lemma pinv_step cfg s l s' : PInv cfg s -> step s l = Some s' -> PInv cfg s'.
-Proof.
-  intros (Hg & Hn & Hp) H. split; [eapply ginv_step; eauto|].
-  unfold step in H. destruct (dead s); [discriminate|].
-  destruct l as [k|alt| |i r alt].
-  - destruct (nth_error (s_env s) k) as [e|]; [|discriminate]. injection H as <-. cbn.
-    split; [apply ninv_env; exact Hn | discriminate].
-  - destruct (Nat.leb 3 alt); [discriminate|].
-    pose proof (ninv_node alt (s_node s) _ Hn eq_refl) as Hs.
-    destruct (thread_step 0 RNode alt (s_node s) assoc0 (n_thr (s_node s))) as [[[nd' a'] t']| |site];
-      try discriminate; [|destruct Hs]. injection H as <-. cbn. split; [exact Hs | discriminate].
-  - pose proof (ninv_stop (s_node s) _ Hn eq_refl) as Hs.
-    destruct (thread_step 0 RStop 0 (s_node s) assoc0 (n_stop (s_node s))) as [[[nd' a'] t']| |site];
-      try discriminate; [|destruct Hs]. injection H as <-. cbn. split; [exact Hs | discriminate].
-  - destruct (negb (is_assoc_role r) || Nat.leb 3 alt) eqn:Eg; [discriminate|].
-    apply orb_false_elim in Eg. destruct Eg as [Er _]. apply negb_false_iff in Er.
-    destruct (nth_error (s_asc s) i) as [a|] eqn:Ea; [|discriminate].
-    destruct (Forall2_nth _ _ _ _ _ Hg Ea) as (se & Hse & Ha).
-    pose proof (step_assoc se (N.of_nat i) r alt (s_node s) a _ Er Ha eq_refl) as Hstep.
-    destruct (thread_step (N.of_nat i) r alt (s_node s) a (get_thr a r)) as [[[nd' a'] t']| |site];
-      try discriminate; injection H as <-; cbn.
-    + destruct Hstep as [_ Hfr]. split; [eapply ninv_frame; eauto | discriminate].
-    + destruct Hstep as [_ ->]. split; [exact Hn|]. intros site' [= <-]. reflexivity.
-Qed.
-
-Lemma ninv_init cap cfg : NInv (init_node cap cfg).
-Proof. unfold NInv. cbn. repeat split; discriminate. Qed.
-
-(* in EVERY configuration and under EVERY schedule the only panic the agent's teardown can raise is the send on
-   the closed pConnDone: no channel is ever closed twice *)
-Theorem only_panic_is_send_on_closed cfg ev sch site :
-  s_panic (run (init cfg ev) sch) = Some site -> site = send_closed.
-Proof.
-  assert (H : PInv cfg (run (init cfg ev) sch)).
-  { unfold run. apply (run_inv state tid step (PInv cfg)); [intros; eapply pinv_step; eauto|].
-    split; [apply ginv_init|]. split; [apply ninv_init | cbn; discriminate]. }
-  destruct H as (_ & _ & H). apply H.
-Qed.
